@@ -1,9 +1,13 @@
 SPEC = {
     "corr": [{"kind": "nf9-wf", "quick": 6000, "thorough": 600000},
-             {"kind": "nf9", "quick": 4000, "thorough": 300000}],
+             {"kind": "nf9", "quick": 4000, "thorough": 300000},
+             {"kind": "interp", "quick": 4000, "thorough": 300000}],
     "rule": "nf9-wf: sessions of well-formed generated NetFlow v9 export packets (template / options template / data "
-            "flowsets, data records of any positive length, flowset padding of 0 .. min(record length - 1, 7) octets) with a "
-            "model-independent expected-decode oracle; nf9: mixed stream with about 12 % "
+            "flowsets, any field lengths incl. integers in more octets than their type (size+1..8 and 9..12), data records of any "
+            "positive length, flowset padding of 0 .. min(record length - 1, 7) octets) with a "
+            "model-independent expected-decode oracle whose expected values are computed from the data types' definitions "
+            "(big-endian / two's-complement number of all the field's octets, math/big), not from Interpret; interp: "
+            "ipfix.Interpret alone on every FieldType x every field length 0..20 x boundary contents; nf9: mixed stream with about 12 % "
             "malformed datagrams; non-trivial = the implementation produced a non-error result; distinct = distinct case line",
     "assumptions": ["information model = the table regenerated from ipfix/rfc5102_model.go (lookupElem is opaque in the proofs)",
                     "the template cache is modelled as one map keyed by the 32-bit FNV-1 hash (finding K1: colliding keys share an entry)"],
@@ -24,7 +28,12 @@ META = {
             "(RFC 3954: 0..3); the former hypotheses 'record longer than 4 octets' (finding K2) and '<= 4 padding octets' "
             "were forced by the decoder's constant `> 4`: under the second, 5..7 octets of padding after records of >= 8 "
             "octets lost the whole packet (F16). Both are repaired in the code (fix 3c79378) and gone from the theorems; "
-            "k2_repaired / k3_repaired evaluate the former counterexamples. Further: "
+            "k2_repaired / k3_repaired evaluate the former counterexamples. What `interpret` means for the integer types is "
+            "stated independently of it (Wire.unsignedValue / signedValue) and proved: unsigned_field_value / "
+            "signed_field_value (a field of k <= n <= 8 octets, k the type's size, is reported with the value of ALL n "
+            "octets - before fix 606ce73 Interpret read the leading k octets, FLOW_SAMPLER_ID in 2 octets = 7 gave 0: F24, "
+            "f24_repaired), integer_field_kind, field_raw (shorter than the type, or an integer of more than 8 octets: the "
+            "octets). Further: "
             "flowset length < 65536, non-empty flowsets, a template record has >= 1 field, the data flowset's template is "
             "what Cache.lookup returns on the cache as updated by the preceding flowsets. Nothing is partial. The model is "
             "tied to netflow/v9/decoder.go by the differential correspondence on generated well-formed and malformed "
@@ -32,7 +41,8 @@ META = {
     "ref": "DESIGN.md §6 C06",
     "note": "Trusted: Lean kernel; hand-written model Vflow.Model.V9 / Flow (Go code transcribed) and hand-written RFC "
             "encoders Vflow.Spec.Wire; lookupElem/interpret are shared by spec and model (their tie to the Go tables is "
-            "C20); the correspondence harness and its generator bound what the tie sees. Value rendering to JSON is C11.",
+            "C20; for the integer types interpret is proved equal to the RFC value, for the other types it is tied to "
+            "Interpret by correspondence only); the correspondence harness and its generator bound what the tie sees. Value rendering to JSON is C11.",
     "technique": "Lean 4 proof by induction over field lists, record lists, template lists and flowset lists + differential "
                  "correspondence with netflow9.Decoder.Decode + independent expected-decode oracle",
 }
